@@ -214,12 +214,110 @@ def _matcher_home(repo, g, fam: Family) -> Tuple[str, str]:
 # -- the run -------------------------------------------------------------------------------------
 
 
+def _r12e(chk, repo) -> None:
+    """``handle_respace__inline_without_space``: when one neighbour of the gap is itself a pending insertion the
+    needed whitespace is put into that fix's edit list.  On the wrong end it separates nothing
+    (`a =NULL` -> CV05 -> `a  ISNULL`)."""
+    from ..index import short
+
+    f = repo.fn("src/sqlfluff/utils/reflow/respace.py", "handle_respace__inline_without_space")
+    cfg = cfg_of(f)
+    # 1. which label stands for which side: the label assigned next to `insertion = prev_block...[-1]` / `next_block...[0]`
+    side_of: Dict[str, str] = {}
+    flag = None
+    for st in walk_local(f):
+        if isinstance(st, ast.Assign) and len(st.targets) == 1 and isinstance(st.targets[0], ast.Name) and isinstance(st.value, ast.Constant) and isinstance(st.value.value, str):
+            par = getattr(st, "_parent", None)
+            sibs = getattr(par, "body", []) if par is not None and st in getattr(par, "body", []) else (getattr(par, "orelse", []) if par is not None else [])
+            for other in sibs:
+                if isinstance(other, ast.Assign) and other is not st and isinstance(other.value, ast.Subscript):
+                    t = norm(other.value)
+                    if "prev_block" in t and t.endswith("[-1]"):
+                        side_of[st.value.value] = "end"
+                        flag = st.targets[0].id
+                    elif "next_block" in t and t.endswith("[0]"):
+                        side_of[st.value.value] = "start"
+                        flag = st.targets[0].id
+    if flag is None or set(side_of.values()) != {"start", "end"}:
+        raise AnalysisError("R12e: cannot find the two branches that pick the pending insertion (prev_block...[-1] / next_block...[0]) with their labels; re-confirm the anchor by hand")
+
+    def label_known(st, extra=()):
+        out = []
+        for e, pol in list(conditions_at(cfg, st)) + list(extra):
+            if isinstance(e, ast.Compare) and len(e.ops) == 1 and isinstance(e.left, ast.Name) and e.left.id == flag and isinstance(e.comparators[0], ast.Constant):
+                c0 = e.comparators[0].value
+                if (isinstance(e.ops[0], ast.Eq) and pol):
+                    out.append(c0)
+                elif (isinstance(e.ops[0], ast.NotEq) and not pol):
+                    out.append(c0)
+                elif (isinstance(e.ops[0], ast.Eq) and not pol) or (isinstance(e.ops[0], ast.NotEq) and pol):
+                    rest = [k for k in side_of if k != c0]
+                    if len(rest) == 1:
+                        out.append(rest[0])
+        return sorted(set(out))
+
+    def is_ws(e) -> bool:
+        return any(isinstance(x, ast.Name) and "whitespace" in x.id for x in ast.walk(e))
+
+    n = 0
+    pairs: List[Tuple[str, str, ast.AST]] = []
+    unknown: List[ast.AST] = []
+    for st in walk_local(f):
+        # fix.edit = [ws] + fix.edit   /   fix.edit = fix.edit + [ws]
+        if isinstance(st, ast.Assign) and len(st.targets) == 1 and isinstance(st.targets[0], ast.Attribute) and st.targets[0].attr == "edit" and isinstance(st.value, ast.BinOp) and isinstance(st.value.op, ast.Add):
+            l, r = st.value.left, st.value.right
+            pos = "start" if is_ws(l) and not is_ws(r) else ("end" if is_ws(r) and not is_ws(l) else None)
+            labs = label_known(st)
+            if pos is None or len(labs) != 1:
+                unknown.append(st)
+            else:
+                pairs.append((labs[0], pos, st))
+        # fix.edit.insert(i, ws) / fix.edit.append(ws)
+        elif isinstance(st, ast.Expr) and isinstance(st.value, ast.Call) and isinstance(st.value.func, ast.Attribute) and st.value.func.attr in ("insert", "append") \
+                and isinstance(st.value.func.value, ast.Attribute) and st.value.func.value.attr == "edit" and any(is_ws(a) for a in st.value.args):
+            c = st.value
+            if c.func.attr == "append":
+                labs = label_known(st)
+                (pairs.append((labs[0], "end", st)) if len(labs) == 1 else unknown.append(st))
+                continue
+            idx = c.args[0]
+            def pos_of(e):
+                if isinstance(e, ast.Constant) and e.value == 0:
+                    return "start"
+                if isinstance(e, ast.Call) and isinstance(e.func, ast.Name) and e.func.id == "len":
+                    return "end"
+                return None
+            if isinstance(idx, ast.IfExp):
+                for arm, pol in ((idx.body, True), (idx.orelse, False)):
+                    labs = label_known(st, extra=[(idx.test, pol)])
+                    p_ = pos_of(arm)
+                    (pairs.append((labs[-1], p_, st)) if labs and p_ else unknown.append(st))
+            else:
+                labs = label_known(st)
+                p_ = pos_of(idx)
+                (pairs.append((labs[0], p_, st)) if len(labs) == 1 and p_ else unknown.append(st))
+    for lab, pos, st in pairs:
+        n += 1
+        chk.require(
+            side_of.get(lab) == pos, "R12e", st,
+            f"with the pending insertion at the {'end of the previous block' if side_of.get(lab) == 'end' else 'start of the next block'} (label {lab!r}) the added whitespace is put at the "
+            f"{pos} of the fix's edit list: it ends up on the far side of the inserted segment, which is then glued to its neighbour (`a =NULL` -> `a  ISNULL`)",
+            detail=f"respace: whitespace added on the gap side of a pending insertion ({lab})",
+        )
+    for st in unknown:
+        chk.fail("R12e", st, f"cannot establish on which side of the pending insertion `{short(st, 60)}` puts the added whitespace", detail="respace: side of the added whitespace is decidable")
+    chk.count("R12e.whitespace_additions_to_a_pending_fix", n)
+    chk.require({lab for lab, _, _ in pairs} >= set(side_of), "R12e", f, "not every kind of pending insertion gets the added whitespace", detail="respace: both sides handled")
+
+
 def run(chk) -> None:
     repo = chk.repo
     chk.rule("R12a", "for every dialect and every pair of fixed-text leaf tokens that the grammar lets follow each other with a gap and the default layout configuration asks to touch, the dialect's lexer table reads the joined text as the same two tokens (exhaustive over the serialised grammars, lexer tables and the default configuration)")
     chk.rule("R12b", "no grammar junction asks two keywords to touch (spacing_within/before/after = touch reaching both sides): every keyword pair of every such junction is read by the lexer table as the same two tokens")
     chk.rule("R12c", "the reflow code deletes whitespace only under touch-and-not-any, derives the constraints from spacing_after of the previous / spacing_before of the next block and spacing_within of the immediate common parent, never strips a newline next to a comment, claims parent spacing only at the parent's edges with own types last; the lexer takes the first matcher that matches")
     chk.rule("R12d", "every candidate text that the dialect's NakedIdentifierSegment entry admits (template fullmatch, IGNORECASE, minus anti_template, casefold-stable: what RF06 unquotes) is read by the dialect's lexer table as one token of the matcher that reads a plain word (ASCII characters exhaustively, alone and in word context; all strings up to length 3 over a representative alphabet)")
+    chk.rule("R12e", "a space that respace adds to an already pending insertion goes on the side of the gap: after the inserted segment when that segment ends the previous block, before it when it starts the next block")
+    _r12e(chk, repo)
     in_selftest = getattr(chk, "in_selftest", False)
     rf06 = _rf06_facts(repo)
     cfg = LayoutConfig.of_repo(repo)
@@ -845,6 +943,19 @@ def _r12c(chk, repo) -> None:
 ANSI = "src/sqlfluff/dialects/dialect_ansi.py"
 
 VARIANTS: List[Variant] = [
+    Variant(
+        "borrowed-space-on-the-far-side", "src/sqlfluff/utils/reflow/respace.py",
+        '        if existing_fix == "before":\n            fix.edit = [cast(BaseSegment, added_whitespace)] + fix.edit\n        elif existing_fix == "after":\n            fix.edit = fix.edit + [cast(BaseSegment, added_whitespace)]\n',
+        '        if existing_fix == "after":\n            fix.edit = [cast(BaseSegment, added_whitespace)] + fix.edit\n        elif existing_fix == "before":\n            fix.edit = fix.edit + [cast(BaseSegment, added_whitespace)]\n',
+        "R12e", "handle_respace__inline_without_space", "seeded C12-4 (same effect): CV05 alone turns `a =NULL` into `a  ISNULL`",
+    ),
+    Variant(
+        "quiet-borrowed-space-inserted-in-place", "src/sqlfluff/utils/reflow/respace.py",
+        '        if existing_fix == "before":\n            fix.edit = [cast(BaseSegment, added_whitespace)] + fix.edit\n        elif existing_fix == "after":\n            fix.edit = fix.edit + [cast(BaseSegment, added_whitespace)]\n',
+        '        fix.edit = list(fix.edit)\n        fix.edit.insert(0 if existing_fix == "before" else len(fix.edit), cast(BaseSegment, added_whitespace))\n',
+        "QUIET", None, "R12e: one insert with the index chosen by the same label",
+    ),
+
     # ---- lexer tables / grammars (R12a, R12b) --------------------------------------------------------
     Variant(
         "ansi-lexer-double-dot", ANSI,
